@@ -75,7 +75,12 @@ class Logger:
 
     def log_node(self, node: Any) -> str:
         """Log fcp node."""
-        lines = self.sources[Path(node.meta.filename).name].split("\n")
+        # sources are keyed by full path (modules in different directories may share a
+        # file name); the bare name is kept as a fallback for sources registered by name
+        filename = str(node.meta.filename)
+        if filename not in self.sources:
+            filename = Path(filename).name
+        lines = self.sources[filename].split("\n")
         return self.log_location(
             lines[node.meta.line - 1],
             node.meta.line,
